@@ -48,6 +48,13 @@ type xUnit struct {
 	// t.server.protocol.ParsePackage): callee text -> a function parameter of the given Gallina type, applied to the
 	// translated arguments; several results are a tuple
 	Funcs map[string]xOracle
+	// Reads: pure read paths (identifiers and member selections only, e.g. msg.Resp.IRet) through values outside the
+	// subset: each becomes a parameter of the given Gallina type and may be used any number of times. The translator
+	// checks that the statements neither assign to such a path or a prefix of it nor hand a prefix of it to a call.
+	Reads map[string]xOracle
+	// ErrVals: the error results are values, not just nil / non-nil: the name of the package's struct type T whose
+	// pointer is returned as an error. error is (go_error T): nil = GoErrNil, errors.New(s) = GoErrNew s, &T{..} = GoErrVal {|..|}
+	ErrVals string
 	// Deep: the statement slice From..To is looked for in nested statement lists as well (it must be unique)
 	Deep bool
 	// Methods: pure methods without arguments of values of the subset (e.String()) that the code calls: each becomes a
@@ -202,6 +209,19 @@ func xIsBytes(t types.Type) bool {
 }
 func xIsError(t types.Type) bool { return t.String() == "error" }
 
+// errRecord: the Record of the struct type named by the unit's ErrVals
+func (x *xl) errRecord(n ast.Node) string {
+	tn, ok := x.pkg.Scope().Lookup(x.unit.ErrVals).(*types.TypeName)
+	if !ok {
+		x.fail(n, "error struct type %s not found in the package", x.unit.ErrVals)
+	}
+	nm, ok := tn.Type().(*types.Named)
+	if !ok {
+		x.fail(n, "%s is not a named struct type", x.unit.ErrVals)
+	}
+	return x.record(n, nm)
+}
+
 func (x *xl) typeOf(e ast.Expr) types.Type {
 	t := x.info.TypeOf(e)
 	if t == nil || t == types.Typ[types.Invalid] {
@@ -238,6 +258,9 @@ func (x *xl) coqType(n ast.Node, t types.Type) string {
 	case xIsBytes(t):
 		return "(list N)"
 	case xIsError(t):
+		if x.unit.ErrVals != "" {
+			return "(go_error " + x.errRecord(n) + ")"
+		}
 		return "bool"
 	}
 	if s, ok := t.Underlying().(*types.Slice); ok {
@@ -329,6 +352,9 @@ func (x *xl) zero(n ast.Node, t types.Type) string {
 	}
 	if xIsFloat(t) != 0 {
 		return "0"
+	}
+	if xIsError(t) && x.unit.ErrVals != "" {
+		return "(@GoErrNil " + x.errRecord(n) + ")"
 	}
 	switch {
 	case xIsBool(t), xIsError(t):
@@ -539,6 +565,21 @@ func (x *xl) expr(e ast.Expr, g *xGuards) string {
 		}
 		x.oracleAt[o.Name] = e
 		return o.Name
+	}
+	if o, ok := x.unit.Reads[x.src(e)]; ok {
+		return o.Name
+	}
+	if x.unit.ErrVals != "" { // error values: errors.New(s), &T{..}
+		if c, ok := e.(*ast.CallExpr); ok && x.src(c.Fun) == "errors.New" && len(c.Args) == 1 {
+			return "(@GoErrNew " + x.errRecord(e) + " " + x.expr(c.Args[0], g) + ")"
+		}
+		if u, ok := e.(*ast.UnaryExpr); ok && u.Op == token.AND {
+			if cl, ok := u.X.(*ast.CompositeLit); ok {
+				if nm, ok := x.info.TypeOf(cl).(*types.Named); ok && nm.Obj().Name() == x.unit.ErrVals && nm.Obj().Pkg() == x.pkg {
+					return "(GoErrVal " + x.expr(cl, g) + ")"
+				}
+			}
+		}
 	}
 	if f := x.field(e); f != nil {
 		if n, ok := x.names[f]; ok {
